@@ -51,6 +51,9 @@ func ccOps() []ccOp {
 		{"renameat", "dir", "RenameAt", "", func(f uint64, t string) *refcodec.Msg { return tRenameat(f, "r"+t, f, "q"+t) }},
 		{"rename", "any-nonroot", "RenameAt", "", func(f uint64, t string) *refcodec.Msg { return tRename(f, 28, "moved"+t) }},
 		{"remove", "any-nonroot", "UnlinkAt", "", func(f uint64, t string) *refcodec.Msg { return tRemove(f) }},
+		// the same rename, held inside the Renamed notification of the moved File (global class)
+		{"rename-notify", "any-nonroot", "Renamed", "", func(f uint64, t string) *refcodec.Msg { return tRename(f, 28, "movedn"+t) }},
+		{"renameat-notify", "dir", "Renamed", "", func(f uint64, t string) *refcodec.Msg { return tRenameat(f, "kd"+t+"n", f, "kdq"+t) }},
 		{"xattrwalk", "any", "GetXattr", "", func(f uint64, t string) *refcodec.Msg { return tXattrwalk(f, 33, "user.a") }},
 		{"statfs", "any", "StatFS", "", func(f uint64, t string) *refcodec.Msg { return tStatfs(f) }},
 		{"attach", "root", "GetAttr", "", func(f uint64, t string) *refcodec.Msg { return tAttach(34, nofid, "") }},
@@ -68,6 +71,9 @@ func populateCC(t *memtree.Tree) {
 	fill := func(d *memtree.Inode) {
 		for _, n := range []string{"wA", "wB", "vA", "vB", "rA", "rB"} {
 			t.Create(d, n, 0o644, 0, 0)
+		}
+		for _, n := range []string{"kdAn", "kdBn"} {
+			t.Mkdir(d, n, 0o755, 0, 0)
 		}
 		d.SetXattr("user.a", []byte("v"), 0)
 	}
@@ -248,6 +254,15 @@ func runPairCase(c pairCase, st *pairStats) *fail {
 		}
 		if f := call(s, tWalk(0, fid, path...)); f != nil {
 			return f
+		}
+		if o.Name == "renameat-notify" {
+			side := "A"
+			if fid == 2 {
+				side = "B"
+			}
+			if f := call(s, tWalk(fid, 26+fid-1-1+0, "kd"+side+"n")); f != nil {
+				return f
+			}
 		}
 		switch o.Needs {
 		case "openfile":
